@@ -478,6 +478,59 @@ namespace verif
         srv->start(Rest::Router::handler(make_router()), workers, [](Http::Endpoint::Options& o) { o.maxRequestSize(16384); });
         uint16_t port = srv->port;
 
+        // In a third of the cases (by the request count, no choice consumed) the application also monitors the
+        // endpoint: Endpoint::requestLoad() once a millisecond while the clients are being served.  It wakes
+        // every worker through its notifier descriptor; serving must not notice.
+        bool monitored = total % 3 == 0;
+        std::atomic<bool> monitor_stop { false };
+        std::thread monitor;
+        if (monitored)
+        {
+            rep.label("load-monitored-while-serving");
+            monitor = std::thread([&, srv] {
+                // one request outstanding at a time, as in the library's own example (the transport keeps a
+                // single pending load request per worker): the next one is issued when the previous has been
+                // answered, or after 200 ms at the latest
+                struct Shared
+                {
+                    std::mutex m;
+                    Tcp::Listener::Load load;
+                    std::atomic<int> answered { 0 };
+                };
+                auto sh = std::make_shared<Shared>();
+                int issued = 0;
+                while (!monitor_stop)
+                {
+                    Tcp::Listener::Load old;
+                    {
+                        std::lock_guard<std::mutex> g(sh->m);
+                        old = sh->load;
+                    }
+                    try
+                    {
+                        ++issued;
+                        srv->ep->requestLoad(old).then(
+                            [sh](const Tcp::Listener::Load& l) {
+                                {
+                                    std::lock_guard<std::mutex> g(sh->m);
+                                    sh->load = l;
+                                }
+                                ++sh->answered;
+                            },
+                            [sh](std::exception_ptr) { ++sh->answered; });
+                    }
+                    catch (const std::exception&)
+                    {
+                        ++sh->answered;
+                    }
+                    for (int w = 0; w < 200 && sh->answered.load() < issued && !monitor_stop; ++w)
+                        net::sleep_ms(1);
+                    if (sh->answered.load() < issued)
+                        break; // unanswered (the endpoint is shutting down or a worker is stuck): stop monitoring
+                    net::sleep_ms(1);
+                }
+            });
+        }
         std::mutex m;
         std::string failure_sig, failure_msg;
         std::atomic<size_t> answered { 0 };
@@ -580,6 +633,9 @@ namespace verif
             for (auto& t : th)
                 t.join();
         // ---- shutdown ---------------------------------------------------------------------------
+        monitor_stop = true;
+        if (monitor.joinable())
+            monitor.join();
         g_async.close_and_join(); // answers still being written from their own threads finish first (see AsyncAnswers)
         // connection churn (derived from the request count, no choice consumed): three more client threads
         // open new connections at the moment of the shutdown, so that the acceptor has a connection
